@@ -548,6 +548,10 @@ func (fx *FnExec) knownExternal(st *State, full string, fn *ssa.Function, args [
 		if r, ok := fx.sortSlice(st, args, p); ok {
 			return r, true
 		}
+	case modPath + "/internal/natsort.Strings":
+		if r, ok := fx.natsortStrings(st, fn, args); ok {
+			return r, true
+		}
 	case "fmt.Sprintf", "fmt.Sprint", "fmt.Sprintln":
 		v := fx.c.Fresh("sprintf", SStr)
 		fx.assumeType(st, v, tStr)
@@ -630,13 +634,25 @@ func (fx *FnExec) sortSlice(st *State, args []*Term, p token.Pos) ([]*Term, bool
 	res := fx.inline(st2, ci.fn, nil, []*Term{i, j}, ci.bindings, p)
 	fx.oblig(st2, "call-pre", "sort.Slice:less-is-lt", p, Eq(res[0], Lt(Select(oldArr, Add(off, i)), Select(oldArr, Add(off, j)))))
 	// effect
-	fx.trusted("assumed contract of sort.Slice (A6): given that less(i, j) is x[i] < x[j] (checked at the call), the elements of x are permuted (a bijection of the index range; hence pairwise distinct elements stay pairwise distinct) into ascending order and nothing else changes")
+	fx.sortedPerm(st, xs, slT.Elem(), func(x, y *Term) *Term { return Le(x, y) },
+		"assumed contract of sort.Slice (A6): given that less(i, j) is x[i] < x[j] (checked at the call), the elements of x are permuted (a bijection of the index range; hence pairwise distinct elements stay pairwise distinct) into ascending order and nothing else changes")
+	return []*Term{}, true
+}
+
+
+// sortedPerm: the elements of slice xs are permuted so that leq(x[a], x[b]) for a < b.
+func (fx *FnExec) sortedPerm(st *State, xs *Term, elem types.Type, leq func(x, y *Term) *Term, why string) {
+	hn, hs := fx.elemHeapName(elem)
+	h := fx.heapGet(st, hn, hs)
+	oldArr := Select(h, SlcBase(xs))
+	off, ln := SlcOff(xs), SlcLen(xs)
+	fx.trusted(why)
 	newArr := fx.c.Fresh("sorted", oldArr.S)
 	{
 		// the elements are values of the element type
 		kk := Var("k!t", SInt)
 		ek := App("select", oldArr.S.elemSort(), newArr, kk)
-		if inv := fx.typeInv(ek, slT.Elem(), fx.entryAlloc); !inv.IsTrue() {
+		if inv := fx.typeInv(ek, elem, fx.entryAlloc); !inv.IsTrue() && !strings.Contains(inv.String(), "forall") {
 			fx.c.Assume(Forall([]*Term{kk}, inv, ek))
 		}
 	}
@@ -651,19 +667,39 @@ func (fx *FnExec) sortSlice(st *State, args []*Term, p token.Pos) ([]*Term, bool
 	inRange := func(x *Term) *Term { return And(Le(IntLit(0), x), Lt(x, ln)) }
 	rdN := func(x *Term) *Term { return fx.elemAt(h2, xs, x) }
 	rdO := func(x *Term) *Term { return fx.elemAt(h, xs, x) }
+	eq := func(x, y *Term) *Term { return fx.valEq(x, y, elem) }
 	piA, pinvB := App(pi, SInt, a), App(pinv, SInt, b)
 	k := Var("k!s", SInt)
 	es := oldArr.S.elemSort()
 	fx.c.Assume(Implies(st.guard, And(
-		// ascending
-		Forall([]*Term{a, b}, Implies(And(Le(IntLit(0), a), Lt(a, b), Lt(b, ln)), Le(rdN(a), rdN(b))), rdN(a), rdN(b)),
+		// in order
+		Forall([]*Term{a, b}, Implies(And(Le(IntLit(0), a), Lt(a, b), Lt(b, ln)), leq(rdN(a), rdN(b))), rdN(a), rdN(b)),
 		// a permutation of the old contents: new[a] == old[pi(a)], pi a bijection of the index range
 		Forall([]*Term{a}, Implies(inRange(a), And(Eq(rdN(a), rdO(piA)), inRange(piA), Eq(App(pinv, SInt, piA), a))), rdN(a)),
 		Forall([]*Term{b}, Implies(inRange(b), And(inRange(pinvB), Eq(App(pi, SInt, pinvB), b), Eq(rdN(pinvB), rdO(b)))), rdO(b)),
 		// consequence of bijectivity: pairwise distinct elements stay pairwise distinct
-		Implies(Forall([]*Term{a, b}, Implies(And(Le(IntLit(0), a), Lt(a, b), Lt(b, ln)), Neq(rdO(a), rdO(b))), rdO(a), rdO(b)),
-			Forall([]*Term{a, b}, Implies(And(Le(IntLit(0), a), Lt(a, b), Lt(b, ln)), Neq(rdN(a), rdN(b))), rdN(a), rdN(b))),
+		Implies(Forall([]*Term{a, b}, Implies(And(Le(IntLit(0), a), Lt(a, b), Lt(b, ln)), Not(eq(rdO(a), rdO(b)))), rdO(a), rdO(b)),
+			Forall([]*Term{a, b}, Implies(And(Le(IntLit(0), a), Lt(a, b), Lt(b, ln)), Not(eq(rdN(a), rdN(b)))), rdN(a), rdN(b))),
 		// outside the slice nothing changes
 		Forall([]*Term{k}, Implies(Not(And(Le(off, k), Lt(k, Add(off, ln)))), Eq(App("select", es, newArr, k), App("select", es, oldArr, k))), App("select", es, newArr, k)))))
+}
+
+// natsortStrings: natsort.Strings(a) sorts through sort.Sort (assumed contract, A6): the
+// strings are permuted so that no later one is Less than an earlier one, Less being the
+// real comparison function applied as a pure function (static obligation pure-funcs).
+func (fx *FnExec) natsortStrings(st *State, fn *ssa.Function, args []*Term) ([]*Term, bool) {
+	pkg := fx.e.pkgs[modPath+"/internal/natsort"]
+	if pkg == nil {
+		return nil, false
+	}
+	less := pkg.Func("Less")
+	if less == nil || !fx.pureFuncOf(less) {
+		return nil, false
+	}
+	leq := func(x, y *Term) *Term {
+		return Not(fx.pureApply(st, less.String(), less.Signature, nil, []*Term{y, x}, false)[0])
+	}
+	fx.sortedPerm(st, args[0], tStr, leq,
+		"assumed contract of sort.Sort as used by natsort.Strings (A6): the strings are permuted (a bijection of the index range) so that no later one is natsort.Less than an earlier one, and nothing else changes")
 	return []*Term{}, true
 }
